@@ -148,6 +148,10 @@ func runCheck(prop, tier, only string, verbose bool) int {
 	if s := os.Getenv("VERIF_SEED"); s != "" {
 		seed, _ = strconv.ParseInt(s, 10, 64)
 	}
+	checkDeadline = t0.Add(45 * time.Minute)
+	if tier == "thorough" {
+		checkDeadline = t0.Add(6 * time.Hour)
+	}
 	specs := spec.Quick
 	if tier == "thorough" && spec.Thorough != nil {
 		specs = spec.Thorough
@@ -434,6 +438,7 @@ func runTasks(prog *ssa.Program, pkg *ssa.Package, runs []*taskRun, openKnown ma
 			cfg := defaultConfig()
 			cfg.Asserts = r.spec.Asserts
 			cfg.StopFlag = &stopFlag
+			cfg.Deadline = checkDeadline
 			cfg.Harness = r.spec.Harness
 			cfg.Args = r.args
 			cfg.KnownOpen = openKnown
@@ -555,3 +560,8 @@ func droppedNames() []string {
 	sort.Strings(out)
 	return out
 }
+
+// checkDeadline: a check that does not end is as useless as one that does not decide: after this much wall-clock time
+// (quick 45 min, thorough 6 h; the unchanged tree needs a fraction of it) the remaining exploration is abandoned and
+// the check ends INCONCLUSIVE unless a violation was already found
+var checkDeadline time.Time
